@@ -799,6 +799,7 @@ def find_bad(pid, res):
 
 def run_check(pid, tier, seed):
     res = V.Result(pid, tier, seed)
+    V.RUN_TIMEOUT[0] = 900 if tier == 'quick' else 6000
     if pid not in CHECKS:
         print('no check registered for', pid); return 2
     try:
@@ -824,6 +825,11 @@ def run_check(pid, tier, seed):
             res.seed = seed
     except V.BuildError as e:
         res.violation('run', None, None, None, 'build', 'family run failed at %s: %s' % (e.stage, e.log[-1500:]), suffix='no-failing-input-found')
+    except Exception as e:
+        # the observations of the implementation could not be processed (unexpected shape): the correspondence is not
+        # established; reported rather than crashing without a verdict
+        import traceback
+        res.violation('run', None, None, None, 'correspondence', 'the check could not process the observations of the implementation: %r\n%s' % (e, traceback.format_exc()[-1500:]), suffix='no-failing-input-found')
     if res.ties and not res.violations:
         fam, c, pm, pi = res.ties[0]
         res.violation(fam, None, None, None, 'correspondence', 'the correspondence model/implementation of family %s no longer holds (%d case(s), first: %r model=%r implementation=%r) but no input was found on which the property itself fails' % (fam, len(res.ties), c[:300], pm[:300], pi[:300]), suffix='no-failing-input-found')
